@@ -303,6 +303,60 @@ func ruleDeleteWithProvenance(w *World, r *Report) {
 			}
 		}
 	})
+	// ... and it is lifted whenever the rule has one: from the lookup of the rule's deleteWith, with the `not given`
+	// edge of a comma-ok lookup deleted, every path to the state's Add passes the wrapper's map update (a type test
+	// in between would drop the deleteWith of rules built by scripts or by Go callers, which arrive as []string)
+	if ok {
+		var lk *ssa.Lookup
+		allInstrs(ar, func(in ssa.Instruction) {
+			if l, isLk := in.(*ssa.Lookup); isLk && lk == nil {
+				if k, isC := constKey(l.Index); isC && k == "deleteWith" && dependsOn(l.X, func(y ssa.Value) bool { return valueIs(y, ruleParam) || y == ssa.Value(ruleParam) }) {
+					lk = l
+				}
+			}
+		})
+		if lk != nil {
+			del := map[bedge]bool{}
+			for _, b := range ar.Blocks {
+				if len(b.Instrs) == 0 {
+					continue
+				}
+				ifi, isIf := b.Instrs[len(b.Instrs)-1].(*ssa.If)
+				if !isIf {
+					continue
+				}
+				ct, okd := decodeIf(ifi)
+				if !okd {
+					continue
+				}
+				if ex, isEx := ct.V.(*ssa.Extract); isEx && ex.Tuple == ssa.Value(lk) && ex.Index == 1 {
+					if ct.TrueWhen == "true" {
+						del[bedge{b, 1}] = true
+					} else if ct.TrueWhen == "false" {
+						del[bedge{b, 0}] = true
+					}
+				}
+			}
+			a2 := newLocAnchors(w)
+			isAdd := func(in ssa.Instruction) bool {
+				_, is := a2.stateCall(in, map[string]bool{"Add": true})
+				return is
+			}
+			isLift := func(in ssa.Instruction) bool {
+				mu, isMU := in.(*ssa.MapUpdate)
+				if !isMU {
+					return false
+				}
+				s, isC := constKey(mu.Key)
+				return isC && s == "deleteWith"
+			}
+			if h, _ := reach(ar, lk, isAdd, isLift, edgeFilterOf(del)); h != nil {
+				ok = false
+				r.violation("RULE-DW", "fn="+fname(ar), w.PosOf(h), "a rule that has a deleteWith can be stored without it being lifted to the wrapper (the lifting depends on more than the presence of the key, e.g. on its Go type): such a rule is no dependent of what it names and survives its deletion")
+				return
+			}
+		}
+	}
 	if ok {
 		r.ok("RULE-DW", "fn="+fname(ar), w.Pos(ar.Pos()), "the wrapper's deleteWith is the rule's deleteWith")
 	} else {
@@ -314,7 +368,7 @@ func init() {
 	register(&propertySpec{
 		ID:      "C08",
 		Explain: "Static pairing / ordering / provenance rules for deleteWith cascades: the removal primitive always cascades, the cascade runs after the id left the map (termination), dependents come from the re-matching search, every removal from memory is paired with the storage removal, and property / rule wrappers carry deleteWith. Does not decide that exactly the dependents are found (that relies on matching and on the term index).",
-		Rules:   []ruleFn{ruleCascade, ruleStoreAck, ruleDeleteWithProvenance, ruleCascErr, ruleLoopExhaust("C08")},
+		Rules:   []ruleFn{ruleCascade, ruleStoreAck, ruleDeleteWithProvenance, ruleCascErr, ruleLoopExhaust("C08"), ruleTermFilter("C08")},
 	})
 }
 
